@@ -6,6 +6,13 @@ import json, os, subprocess, sys, tempfile, shutil
 ROOT = os.path.dirname(os.path.dirname(os.path.abspath(__file__)))
 sys.path.insert(0, ROOT)
 from props import PROPS
+import atexit, glob as _glob, shutil as _shutil
+# EVID_BACKUP: runs against a changed tree must not leave their evidence files behind in /verif/evidence
+_evid = {f: open(f).read() for f in _glob.glob(os.path.join(ROOT, 'evidence', '*.json'))}
+def _restore():
+    for f, c in _evid.items():
+        open(f, 'w').write(c)
+atexit.register(_restore)
 patch = os.path.abspath(sys.argv[1])
 props = sys.argv[2:] or sorted(PROPS)
 wt = tempfile.mkdtemp(prefix="mutwt_", dir="/tmp")
